@@ -221,6 +221,37 @@ def check(res, tier):
                 res.violation("corr:pos:%s:%s:%s" % m, "model and type checker disagree whether %s is accepted where %s is required (%s)" % (s, t, pos),
                               {"program": r["files"]["main.ddp"], "implementation": o, "model": w,
                                "correspondence": "parser.Parse verdict vs DDP.Types.%sOk" % pos}, has_input=False)
+    # ---- the same laws behind instantiations of a generic Kombination: X-Halter and Y-Halter are one type exactly when X and Y are
+    GH = ('Wir definieren eine Hausnummer als eine Zahl.\nWir definieren eine Postleitzahl als eine Zahl.\nWir nennen eine Zahl auch eine Strecke.\n'
+          'Wir definieren einen Namen als einen Text.\n\nWir nennen die generische Kombination aus\n\tdem T wert,\neinen Halter, und erstellen sie so:\n\t"ein Halter mit <wert>"\n\n')
+    GT = {"Zahl": ("Zahl", "7"), "Strecke": ("Zahl", "7"), "Hausnummer": ("H", "(7 als Hausnummer)"), "Postleitzahl": ("P", "(7 als Postleitzahl)"),
+          "Text": ("Text", '"t"'), "Namen": ("N", '("t" als Namen)')}
+    greqs, gmeta = [], []
+    for x in GT:
+        for y in GT:
+            for first in ("source", "target"):
+                da = "Der %s-Halter a ist ein Halter mit %s.\n" % (x, GT[x][1])
+                db = "Der %s-Halter b ist ein Halter mit %s.\n" % (y, GT[y][1])
+                body = (da + db if first == "source" else db + da)
+                for pos, stmt in (("assign", "Speichere a in b.\n"), ("init", "Der %s-Halter c ist a.\n" % y), ("field", "%s %s f ist wert von a.\n" % (
+                        "Der" if y in ("Text", "Namen") else "Die", y))):
+                    greqs.append({"files": {"main.ddp": GH + body + stmt}, "main": "main.ddp"})
+                    gmeta.append((pos, x, y, first))
+    gouts = corr.parse_many(harness, greqs)
+    res.evaluations += len(greqs)
+    gbad = 0
+    for r, (pos, x, y, first), o in zip(greqs, gmeta, gouts):
+        res.nontrivial("generic:%s:%s:%s:%s" % (pos, x, y, first))
+        errs = [d for d in o.get("diags", []) if d["level"] == 2]
+        want_ok = GT[x][0] == GT[y][0]
+        if o["result"] != "ok" or (not errs) != want_ok:
+            gbad += 1
+            if gbad <= 4:
+                res.violation("generic-instantiation:%s:%s:%s:%s" % (pos, x, y, first),
+                              "a %s-Halter is %s where a %s-Halter is required (%s, %s declared first): type definitions stay opaque and aliases transparent behind "
+                              "instantiations of a generic Kombination" % (x, "accepted" if not errs else "rejected", y, pos, first),
+                              {"program": r["files"]["main.ddp"], "implementation": o, "expected": "accepted" if want_ok else "rejected"})
+    res.extra.update({"generic_instantiation_programs": len(greqs)})
     res.extra.update({"type_pairs_exhaustive": nex, "types": n, "depth": depth, "position_programs": len(reqs),
                       "position_accepted": accepted, "disagreements": mism + pm})
     res.exhaustive = True
